@@ -21,7 +21,7 @@ def run(tier, rep):
         if r.coverage.get(a, 0) == 0:
             raise ToolError(f"vacuity: MatchSem action {a} never taken")
     progs = fam_c06.programs(tier)
-    cases, counts = famcheck.run_families("C06", rep, progs, "c06")
+    cases, counts = famcheck.run_families("C06", rep, progs, "c06", goinvalid_is_violation=True)
     # consistency of the two specifications: MatchSem's prediction = GomlSem's outcome
     nonexh = overlap = 0
     for c in cases:
